@@ -8,6 +8,12 @@ import signal
 
 from . import ctlgen, pipedrv, z80len
 
+# Open finding out:overlap-warning:unexecuted-entry-overlaps-executed, smallest form: XOR A / JR Z,+4 (taken) / JP 32778 and a NOP
+# (never executed) / JP 32779 / byte 01 (never executed) / LD HL,16384 / JR $.  The executed block is extended over the unexecuted
+# JP, whose target 32778 becomes an entry point although the instruction decoded there (01 21 00) runs into the executed one.
+PROBE_UNEXECUTED_ENTRY = {'mem': [0xAF, 0x28, 0x04, 0xC3, 0x0A, 0x80, 0x00, 0xC3, 0x0B, 0x80, 0x01, 0x21, 0x00, 0x40, 0x18, 0xFE],
+                          'org': 32768, 'map': [32768, 32769, 32775, 32779, 32782]}
+
 OPC = {(1, 0): [0x00], (1, 1): [0xC9], (2, 0): [0x3E, 0x01], (2, 1): [0x18, 0x00], (3, 0): [0x21, 0x34, 0x12], (3, 1): [0xC3, 0x00, 0x00]}
 
 
@@ -179,6 +185,7 @@ DIR = re.compile(r'^([a-zA-Z]) (\$[0-9A-Fa-f]{4}|\d+)')
 def out_cases(args):
     seed, n_cases, wd = args[:3]
     sweeps = list(args[3]) if len(args) > 3 else []       # lists of opcode-slot indexes, one image each
+    fixed = list(args[4]) if len(args) > 4 else []        # hand-written inputs (open findings reproduced deterministically)
     from ..lib import cbuild
     cbuild.repo_only()
     from skoolkit import sna2ctl, sna2skool, skool2bin
@@ -189,14 +196,19 @@ def out_cases(args):
     os.makedirs(sub, exist_ok=True)
     signal.signal(signal.SIGVTALRM, _alarm)
     out = []
-    for k in range(n_cases + len(sweeps)):
+    for k in range(n_cases + len(sweeps) + len(fixed)):
         kind = ('code', 'struct', 'random', 'prefix', 'struct', 'text', 'zeros', 'struct')[k % 8]
-        if k >= n_cases:
+        if k >= n_cases + len(sweeps):
+            kind = 'probe'
+            fx = fixed[k - n_cases - len(sweeps)]
+        elif k >= n_cases:
             kind = 'sweep'
         size = rnd.choice((16, 30, 60, 120, 250))
         org = rnd.choice((0x8000, 40000, 0x4000, 65536 - size, 65536 - size - 7))
         entry = None
-        if kind == 'sweep':
+        if kind == 'probe':
+            mem, org, size = list(fx['mem']), fx['org'], len(fx['mem'])
+        elif kind == 'sweep':
             # every opcode slot once, as straight-line code: a decoder of sna2ctl that sizes one slot differently from
             # the disassembler puts the following directives (-C) off the instruction boundaries
             mem, sweep_starts = [], []
@@ -226,7 +238,7 @@ def out_cases(args):
         full[org:org + size] = mem
         start = org + rnd.choice((0, 0, rnd.randrange(0, size // 4)))
         end = org + size - rnd.choice((0, 0, 0, 1, 2, rnd.randrange(0, size // 4)))
-        if kind in ('struct', 'sweep'):
+        if kind in ('struct', 'sweep', 'probe'):
             start, end = org, org + size
         binf = os.path.join(sub, 'i%d.bin' % k)
         open(binf, 'wb').write(bytes(mem))
@@ -234,7 +246,9 @@ def out_cases(args):
         mapaddrs = []
         mk = rnd.random()
         strict = 1
-        if kind == 'sweep':
+        if kind == 'probe':
+            mapaddrs = list(fx['map'])
+        elif kind == 'sweep':
             # the code map of a straight-line run through the image (as a profiler that ignores jumps would record it)
             mapaddrs = [org + x for x in sweep_starts]
         elif kind == 'struct':
@@ -253,16 +267,17 @@ def out_cases(args):
             mapf = os.path.join(sub, 'm%d.map' % k)
             write_map(mapf, fmt, mapaddrs)
             args_ += ['-m', mapf]
-        if rnd.random() < 0.3:
-            args_.append('-h' if rnd.random() < 0.6 else '-l')
-        if rnd.random() < 0.3 or kind == 'sweep':
-            args_.append('-C')
-        if rnd.random() < 0.3 and kind != 'sweep':
-            args_.append('-r')
-        for name, vals in (('TextChars', ('abcdefghijklmnopqrstuvwxyz ', 'ABC xyz.,')), ('TextMinLengthCode', (3, 8, 12)),
-                           ('TextMinLengthData', (2, 3, 5))):
+        if kind != 'probe':
             if rnd.random() < 0.3:
-                args_ += ['-I', '%s=%s' % (name, rnd.choice(vals))]
+                args_.append('-h' if rnd.random() < 0.6 else '-l')
+            if rnd.random() < 0.3 or kind == 'sweep':
+                args_.append('-C')
+            if rnd.random() < 0.3 and kind != 'sweep':
+                args_.append('-r')
+            for name, vals in (('TextChars', ('abcdefghijklmnopqrstuvwxyz ', 'ABC xyz.,')), ('TextMinLengthCode', (3, 8, 12)),
+                               ('TextMinLengthData', (2, 3, 5))):
+                if rnd.random() < 0.3:
+                    args_ += ['-I', '%s=%s' % (name, rnd.choice(vals))]
         c = {'kind': 'out', 'strict': strict, 'start': start, 'end': end, 'dirs': [], 'subs': [], 'map': mapaddrs, 'iaddr': [], 'warn': 0,
              'timeout': 0, 'err': '', 'skoolerr': '', 'mem': full[start:end], 'ignored': [], 'binstart': 0, 'bin': [],
              'stmts': [], 'args': args_, 'image_kind': kind, 'org': org, 'image': mem}
